@@ -144,6 +144,35 @@ func VP_C05_basic_two_tunnels() {
 	vpAssert(a0 == "192.0.2.0", "first-tunnels-client-address-is-still-its-own")
 }
 
+//vp:property C05 C10
+//vp:bounds up to seven Basic requests one after the other through one BasicAuthHandler: the first n (0..6) make the call to the authentication service fail (credentials it cannot even be asked about, e.g. bytes gRPC cannot marshal), the last one carries credentials the backend confirms
+//vp:assume the authentication service is reachable; every request is answered before the next one arrives
+//vp:reach last-served
+func VP_C05_basic_after_failures() {
+	vpResetWeb()
+	sessionStore = vpNewStore()
+	h := &BasicAuthHandler{SocketAddress: "/tmp/sock", Timeout: 5}
+	vpAuthDB = map[string]string{"alice": "a-secret"}
+	vpAssume(!vpBool("grpc-dial-fails"))
+	n := vpIntRange("failing-requests-before", 0, 6)
+	vpAuthFailFirst = n
+	reached := 0
+	mw := h.BasicAuth(func(w http.ResponseWriter, r *http.Request) { reached++ })
+	mk := func(user, pass string) *http.Request {
+		return vpRequest("RDG_OUT_DATA", http.Header{"X-Vp-Basic-User": {user}, "X-Vp-Basic-Pass": {pass}}, identity.NewUser())
+	}
+	for i := 0; i < n; i++ {
+		w := vpNewRW()
+		mw(w, mk("al\xffice", "x"))
+		vpAssert(w.status == 500 || w.status == 401, "a-request-the-backend-cannot-be-asked-about-is-answered-with-an-error")
+	}
+	vpAssert(reached == 0, "failed-requests-do-not-reach-the-handler")
+	w := vpNewRW()
+	mw(w, mk("alice", "a-secret"))
+	vpReach("last-served")
+	vpAssert(reached == 1, "confirmed-credentials-reach-the-handler-whatever-failed-before")
+}
+
 //vp:property C05 C07
 //vp:bounds two Basic requests in flight at once through one BasicAuthHandler: mallory with her own, correct password, whose backend call is slow, and — served while that call is pending — a request for the user name administrator with a password the backend does not confirm; both carry the same Rdg-Connection-Id (the two channels of a legacy connection do) or different ones or none
 //vp:assume cooperative schedule: the second request runs while the first waits for the backend; the backend answers each call for the credentials of that call
@@ -189,13 +218,20 @@ func VP_C05_basic_concurrent() {
 
 //vp:property C05
 //vp:set s 2 4
-//vp:bounds NTLM/Negotiate scheme: well-formed prefix + payload of <= s bytes; backend: unreachable / RPC error / challenge message / authenticated with user name <= s bytes / not authenticated
+//vp:bounds NTLM/Negotiate scheme, or a Basic header that parses as credentials the password backend confirms: well-formed prefix + payload of <= s bytes; backend: unreachable / RPC error / challenge message / authenticated with user name <= s bytes / not authenticated
 //vp:reach passed challenge-relayed rejected
 func VP_C05_ntlm() {
 	vpResetWeb()
 	n := vpParam("s")
-	prefix := []string{"NTLM ", "Negotiate "}[vpIntRange("scheme", 0, 1)]
+	prefix := []string{"NTLM ", "Negotiate ", "Basic "}[vpIntRange("scheme", 0, 2)]
 	payload := vpString("payload", n)
+	if prefix == "Basic " {
+		// a Basic header can reach this middleware (the route matcher looks for the keyword anywhere in the
+		// value, and at any of several header lines): it parses as credentials which the PASSWORD backend
+		// would confirm — that is no business of the NTLM middleware
+		vpBasicOK, vpBasicUser, vpBasicPass = true, "pamuser", "pw"
+		vpAuthRes = &auth.AuthResponse{Authenticated: true}
+	}
 	h := &NTLMAuthHandler{SocketAddress: "", Timeout: 5}
 	if vpBool("has-socket") {
 		h.SocketAddress = "/tmp/sock"
@@ -238,7 +274,9 @@ func VP_C05_ntlm() {
 			vpAssert(w.status == 500 || h.SocketAddress == "", "otherwise-500")
 		}
 	}
-	if h.SocketAddress != "" && !vpBool("grpc-dial-fails") && vpNtlmErr == nil && vpNtlmRes != nil && vpNtlmRes.Authenticated && vpNtlmRes.NtlmMessage == "" {
+	if prefix == "Basic " {
+		vpAssert(nextCalls == 0 && vpAuthCalls == 0, "a-basic-header-is-refused-by-the-ntlm-middleware-and-not-shown-to-the-password-backend")
+	} else if h.SocketAddress != "" && !vpBool("grpc-dial-fails") && vpNtlmErr == nil && vpNtlmRes != nil && vpNtlmRes.Authenticated && vpNtlmRes.NtlmMessage == "" {
 		vpAssert(nextCalls == 1, "confirmed-credentials-reach-the-handler")
 	}
 }
